@@ -142,7 +142,9 @@ theorem C01_driver_reduceb_fuel (M : Nat) (o : Order) (fuel : Nat) (t : Term) (h
   rw [this] at h
   cases h
 
--- NOT YET PROVED
+-- PROVED SINCE (in `LC/Props/C01BoundedExact.lean`: `C01_checked_reduce_exact_run`, together with the iff forms
+-- `C01_checked_reduce_exact`, `…_panic_iff`, `…_refuses_iff`, `…_returns_iff` for every limit incl. 0 and every fuel);
+-- the statement is kept here as it was written when this file was finished:
 -- the exact characterisation of the checked TRAVERSAL for limits other than 1 (for `L = 1` it is
 -- `C01_checked_reduce1_step`; for the checked run of strategy steps it is `C01_checked_run_iff`):
 -- theorem C01_checked_reduce_eq_run (M : Nat) (o : Order) (L fuel : Nat) (t : Term) (ht : maxIndex t ≤ M)
